@@ -303,12 +303,88 @@ Proof. intros [A _ _] [A' _ _]. simpl. apply sd_merge_ok; assumption. Qed.
 Lemma m2m_side_side s m : m2m_side s (m2m_side s m) = m.
 Proof. destruct s, m; reflexivity. Qed.
 
+(* ---- __eq__ : dict == over set values is equality of the pair sets ----------------------- *)
+Lemma set_eqb_true s t : NoDup s -> NoDup t -> (set_eqb s t = true <-> forall x, In x s <-> In x t).
+Proof.
+  intros Ns Nt. unfold set_eqb. rewrite andb_true_iff, Nat.eqb_eq, forallb_forall. split.
+  - intros [L H] x. split; intro Hx.
+    + apply s_mem_In. now apply H.
+    + assert (I : incl s t) by (intros y Hy; apply s_mem_In; now apply H).
+      assert (Lt : length t <= length s) by lia.
+      exact (NoDup_length_incl Ns Lt I x Hx).
+  - intro H. split.
+    + apply Nat.le_antisymm; apply NoDup_incl_length; trivial; intros y Hy; now apply H.
+    + intros x Hx. apply s_mem_In. now apply H.
+Qed.
+
+Lemma key_in_iff_rel d k : SWF d -> (In k (map fst d) <-> exists v, rel_of d k v).
+Proof.
+  intro H. split.
+  - intro Hin. apply in_map_iff in Hin. destruct Hin as [[k0 s] [<- Hin]]. simpl.
+    apply swf_In_get in Hin; trivial. destruct (swf_sets _ H k0 s Hin) as [Hne _].
+    apply nonempty_In in Hne. destruct Hne as [x Hx]. exists x. unfold rel_of. now rewrite Hin.
+  - intros [v Hv]. unfold rel_of in Hv. destruct (d_get d k) as [s|] eqn:E; [|tauto].
+    apply get_In in E. apply in_map_iff. now exists (k, s).
+Qed.
+
+Lemma sd_eqb_true d1 d2 : SWF d1 -> SWF d2 ->
+  (sd_eqb d1 d2 = true <-> forall a b, rel_of d1 a b <-> rel_of d2 a b).
+Proof.
+  intros H1 H2. unfold sd_eqb. rewrite andb_true_iff, Nat.eqb_eq, forallb_forall. split.
+  - intros [L F].
+    assert (Fwd : forall a b, rel_of d1 a b -> rel_of d2 a b).
+    { intros a b R. unfold rel_of in R. destruct (d_get d1 a) as [s|] eqn:E; [|tauto].
+      pose proof (F (a, s) (get_In _ _ _ E)) as G. simpl in G.
+      unfold rel_of. destruct (d_get d2 a) as [t|] eqn:E2; [|discriminate].
+      pose proof (proj1 (set_eqb_true s t (proj2 (swf_sets _ H1 a s E)) (proj2 (swf_sets _ H2 a t E2))) G) as G'.
+      now apply G'. }
+    assert (Keys : incl (map fst d2) (map fst d1)).
+    { assert (I12 : incl (map fst d1) (map fst d2)).
+      { intros k Hk. apply key_in_iff_rel in Hk; trivial. destruct Hk as [v Hv].
+        apply key_in_iff_rel; trivial. exists v. now apply Fwd. }
+      assert (Lk : length (map fst d2) <= length (map fst d1)) by (rewrite !map_length; lia).
+      exact (NoDup_length_incl (swf_keys _ H1) Lk I12). }
+    intros a b. split; [apply Fwd|]. intro R.
+    assert (Ka : In a (map fst d1)) by (apply Keys; apply key_in_iff_rel; eauto).
+    apply in_map_iff in Ka. destruct Ka as [[a0 s] [Ea Hin]]. simpl in Ea. subst a0.
+    pose proof (F (a, s) Hin) as G. simpl in G. apply swf_In_get in Hin; trivial.
+    unfold rel_of in *. rewrite Hin. destruct (d_get d2 a) as [t|] eqn:E2; [|discriminate].
+    pose proof (proj1 (set_eqb_true s t (proj2 (swf_sets _ H1 a s Hin)) (proj2 (swf_sets _ H2 a t E2))) G) as G'.
+    now apply G'.
+  - intro R.
+    assert (K12 : incl (map fst d1) (map fst d2)).
+    { intros k Hk. apply key_in_iff_rel in Hk; trivial. destruct Hk as [v Hv].
+      apply key_in_iff_rel; trivial. exists v. now apply R. }
+    assert (K21 : incl (map fst d2) (map fst d1)).
+    { intros k Hk. apply key_in_iff_rel in Hk; trivial. destruct Hk as [v Hv].
+      apply key_in_iff_rel; trivial. exists v. now apply R. }
+    split.
+    + rewrite <- (map_length fst d1), <- (map_length fst d2).
+      apply Nat.le_antisymm; apply NoDup_incl_length; trivial; [apply (swf_keys _ H1)|apply (swf_keys _ H2)].
+    + intros [k s] Hin. simpl. apply swf_In_get in Hin; trivial.
+      assert (Kk : In k (map fst d2)).
+      { apply K12. apply in_map_iff. exists (k, s). split; trivial. now apply get_In. }
+      apply in_map_iff in Kk. destruct Kk as [[k0 t] [Ek Hin2]]. simpl in Ek. subst k0.
+      apply swf_In_get in Hin2; trivial. rewrite Hin2.
+      apply (proj2 (set_eqb_true s t (proj2 (swf_sets _ H1 k s Hin)) (proj2 (swf_sets _ H2 k t Hin2)))).
+      intro x. specialize (R k x). unfold rel_of in R. now rewrite Hin, Hin2 in R.
+Qed.
+
+Lemma sd_eqb_same_set d1 d2 : SWF d1 -> SWF d2 -> sd_eqb d1 d2 = same_set (PR d1) (PR d2).
+Proof.
+  intros H1 H2. destruct (sd_eqb d1 d2) eqn:E; symmetry.
+  - apply same_set_true. intros [a b]. rewrite !In_PR by assumption. now apply sd_eqb_true.
+  - destruct (same_set (PR d1) (PR d2)) eqn:E2; trivial.
+    apply same_set_true in E2. assert (sd_eqb d1 d2 = true); [|congruence].
+    apply sd_eqb_true; trivial. intros a b. rewrite <- !In_PR by assumption. apply E2.
+Qed.
+
 (* ---- one step on a heap of instances --------------------------------------------------------- *)
 Lemma m2m_hstep_refines h hop : Forall M2mInv h -> snd (m2m_hstep h hop) <> Raise BadIndex ->
   m_hop_ok (map m2m_view_of h) (tr_mhop hop) (tr_res (snd (m2m_hstep h hop)))
            (map m2m_view_of (fst (m2m_hstep h hop))) = true.
 Proof.
-  intros F NB. destruct hop as [kvs|i s|i s op|i s j t]; simpl in *.
+  intros F NB. destruct hop as [kvs|i s|i s op|i s j t|i s j t]; simpl in *.
   - rewrite map_app, firstn_app_exact', skipn_app_exact', mviews_eqb_refl. simpl.
     assert (K : M2mInv (m_update_pairs m_empty kvs)) by apply m_update_pairs_ok, m_empty_ok.
     rewrite m2m_model_healthy by assumption. simpl.
@@ -341,6 +417,12 @@ Proof.
     rewrite (In_PR _ a b (mi_data _ K)), (In_PR _ a b (mi_data _ (M2mInv_side s m Hm))),
             (In_PR _ a b (mi_data _ (M2mInv_side t o Ho))).
     rewrite m_update_from_data by now apply M2mInv_side. tauto.
+  - rewrite !nth_error_map. destruct (nth_error h i) as [m|] eqn:E; simpl in *; [|congruence].
+    destruct (nth_error h j) as [o|] eqn:E2; simpl in *; [|congruence].
+    pose proof (Forall_nth_error' _ _ _ _ F E) as Hm. pose proof (Forall_nth_error' _ _ _ _ F E2) as Ho.
+    rewrite mviews_eqb_refl, !m_rel_view. simpl.
+    rewrite sd_eqb_same_set; [|apply (M2mInv_side s m Hm)|apply (M2mInv_side t o Ho)].
+    destruct (same_set _ _); reflexivity.
 Qed.
 
 (* ---- whole histories ------------------------------------------------------------------------- *)
